@@ -434,8 +434,10 @@ pub fn run_traced(root: &Path, s0: &Contents, q0: &[QOp], ops: &[Op]) -> anyhow:
     calls.push(CallRec { begin, end, label: op.label(), s_before, s_after: s.clone(), q_before, q_after: q.clone(), queued });
   }
   // the process dies here: the writer is not dropped in an orderly way as far as the trace is concerned
+  // (the trace is cut here; what the drop below does to the real files does not matter, every
+  // recovery starts from an image rebuilt from the trace)
   let events = rec.events.lock().unwrap().clone();
-  std::mem::forget(writer);
+  drop(writer);
   drop(idx);
   Ok(Traced { events, calls, s_end: s, q_end: q, wal: root.join("wal.log") })
 }
